@@ -9,9 +9,31 @@
    What is trusted and not proved (the runtime): one bytecode / one built-in dict operation is atomic (GIL),
    threading.Lock is a mutex, amounts are integers (Z): for binary64 amounts that are not integers the cell is the
    fold in application order (C02_no_lost_update), not THE sum.
-   Missing for full strength (hence _partial): the link "every issued increment has been applied when all threads have
-   finished" is stated on the trace (sum of the increments APPLIED), not on the program text; the tie of the model
-   programs to the Python is the trace-conformance check of harness/c02.py, i.e. differential testing. *)
+   Now proved at the END of this file (proofs/ConcFinalProofs.v, proofs/ConcLabelProofs.v), on top of the first eleven
+   theorems, which are unchanged:
+   - C02_final_sum_static / C02_final_sum_labelled (+ _noraise): the link to the PROGRAM TEXT.  For threads given as
+     lists of library operations (ps = map compile_thread opss), in every reachable configuration in which all threads
+     have finished, a counter / summary / histogram cell that is only incremented holds its initial value plus the sum of
+     ALL increments the operation lists issue - static cells, and the cells of the labelled child that the table binds
+     to a key (C02_labels_returned_child: the child every labels() call returned), any number of value objects per
+     child.  Proof: an invariant relating the remaining code of every thread to a suffix-state of its compiled
+     operation list.  A thread that raises (duplicate register) abandons its remaining operations, hence the hypothesis
+     that no thread raised, or, on the program text, that no operation / body can raise (C02_no_exception: only
+     register / unregister can); the _per_thread forms need neither: every thread that finished without raising
+     added exactly what its operation list issues.
+   - C02_terminates: no call blocks forever - for programs without collect loops / collector calls: every schedule
+     takes at most total_steps ps steps, a stuck execution is a finished one, every fair schedule finishes.
+     C02_bounded_between_calls: for every world, steps <= total_steps + (2L+1) * (loop / callout instructions run);
+     C02_fair_finishes_with_calls: in every disciplined world a fair schedule finishes once its rounds reach that bound.
+     What the loop construct of the model does not allow is said at C02_terminates.
+   - C02_operations_disciplined / C02_bodies_disciplined: the discipline theorem for children with ANY number of value
+     objects and any field.  The bound `child tables numbered below 40` stays: it is the model's lock NUMBERING
+     (parent lock of table tb = static lock 10+tb, user-collector mutexes = 50+u, value mutexes = 100+n; lib_disc ranks
+     a lock by these ranges), so table 40+ would alias a parent lock with a user / value mutex; lifting it means a
+     separate lock constructor per kind in model/Conc.v and in the harness protocol, not a proof change.
+   Still missing for full strength (hence the _partial names above stay): the amounts are integers; the tie of the model
+   programs to the Python is the trace-conformance check of harness/c02.py, i.e. differential testing; termination of
+   worlds with collect loops has no bound from the program text (collector bodies may call collectors). *)
 From V Require Import lib.PyBase model.Conc proofs.ConcProofs.
 Open Scope N_scope.
 
@@ -110,4 +132,390 @@ Proof.
   split; [|vm_compute; reflexivity].
   split; [|intro b; exists 1%nat; reflexivity].
   repeat constructor; apply wf_prog_disciplined; vm_compute; reflexivity.
+Qed.
+
+(* ===================================================================================================================
+   Final state against the PROGRAM TEXT, termination, widened discipline (proofs/ConcFinalProofs.v)
+   =================================================================================================================== *)
+From V Require Import proofs.ConcFinalProofs proofs.ConcLabelProofs.
+
+(* (3) the discipline theorem without the one-value-object restriction: labels()/labels().inc() for children with ANY
+   number nc of value objects (Summary: 2, Histogram: 1 + buckets) and any field j, in both back-ends; value operations
+   on a child held in a register below the program's register base (what collector bodies do) *)
+Theorem C02_operations_disciplined : forall mp ops,
+  Forall (simple_op_w 10) ops -> lib_disciplined mp (compile_thread mp ops).
+Proof. exact (fun mp ops => compile_disciplined_w mp ops 10). Qed.
+Print Assumptions C02_operations_disciplined.
+
+Theorem C02_bodies_disciplined : forall mp ops,
+  Forall (simple_op_w 6) ops -> lib_disciplined mp (compile_body mp ops).
+Proof. exact (fun mp ops => compile_disciplined_w mp ops 6). Qed.
+Print Assumptions C02_bodies_disciplined.
+
+Example C02_operations_disciplined_nonvacuous :
+  Forall (simple_op_w 10) [OLabelsInc 7 3 2 1 5; OLabels 39 0 16; OInc (SLoc 3) 1; OGet (DLoc 3 0) true true; OCollect 100]
+  /\ Forall (simple_op_w 6) [OGet (DLoc 3 0) true true; OMulti 2 101; OLookup 8]
+  /\ ~ simple_op (OLabelsInc 7 3 2 1 5).
+Proof. split; [repeat constructor|split; [repeat constructor|]]. intros [_ H]. discriminate. Qed.
+
+(* (1) C02_final_sum, static cells (Counter / Gauge.inc values, the count and sum cells of a Summary, the sum and bucket
+   cells of a Histogram): when every thread has finished, cell n holds its initial value plus the sum of ALL increments
+   the operation lists ISSUE on it (total_issued_stat: the sum over all threads and all their operations OInc (SLoc n) a
+   of a).  Hypotheses: no operation SETS cell n; collector / loop bodies do not store to cell n and their jumps stay
+   inside them; no thread raised (a thread that raises - a duplicate register() - abandons its remaining operations). *)
+Theorem C02_final_sum_static : forall mp bodies h0 tb0 n0 opss n,
+  let ps := map (compile_thread mp) opss in
+  wf_world mp bodies ps ->
+  (forall b, nostore n (bodies b) /\ jumps_in (bodies b)) ->
+  Forall (Forall (no_set n)) opss ->
+  forall c, reach bodies h0 tb0 n0 ps c -> (forall t, code (thr c t) = []) ->
+  (forall t, ~ In (EvExc t) (trace c)) ->
+  heap c (LStat n) = (h0 (LStat n) + total_issued_stat n opss)%Z.
+Proof. exact final_sum_static. Qed.
+Print Assumptions C02_final_sum_static.
+
+(* the same with hypotheses on the program text only: no register()/unregister() among the operations and no Raise in
+   the bodies, so that no thread can raise *)
+Theorem C02_final_sum_static_noraise : forall mp bodies h0 tb0 n0 opss n,
+  let ps := map (compile_thread mp) opss in
+  wf_world mp bodies ps ->
+  (forall b, nostore n (bodies b) /\ jumps_in (bodies b) /\ noraise (bodies b)) ->
+  Forall (Forall (fun o => no_set n o /\ nonraising o)) opss ->
+  forall c, reach bodies h0 tb0 n0 ps c -> (forall t, code (thr c t) = []) ->
+  heap c (LStat n) = (h0 (LStat n) + total_issued_stat n opss)%Z.
+Proof. exact final_sum_static_noraise. Qed.
+Print Assumptions C02_final_sum_static_noraise.
+
+(* Summary.observe(v) is [OInc count 1; OInc sum v], Histogram.observe(v) is [OInc sum v; OInc bucket 1] (harness/c02.py,
+   model_ops): the final count, sum and bucket cells are instances of the theorem above.  Non-vacuity: two threads, a
+   counter (cell 1), a summary (cells 3 = count, 4 = sum) and a labelled two-value child; collector bodies that read;
+   an interleaved schedule after which every thread has finished; the three cells hold the issued totals. *)
+Example C02_final_sum_static_nonvacuous :
+  let opss := [[OInc (SLoc 1) 1; OInc (SLoc 3) 1; OInc (SLoc 4) 5; OLabelsInc 2 0 2 1 5; OCollect 100];
+               [OInc (SLoc 1) 2; OGet (SLoc 1) true false; OInc (SLoc 3) 1; OInc (SLoc 4) 7]] in
+  let bodies := body_table [(100, compile_body false [OCallReg]); (1, compile_body false [OGet (SLoc 1) true true])] in
+  let ps := map (compile_thread false) opss in
+  let c := exec bodies (concat (repeat [0; 1]%nat 60)) (init_config (fun _ => 0%Z) (fun tb => if N.eqb tb 0 then [(1, 1)] else []) 0 ps) in
+  wf_world false bodies ps /\
+  (forall n, (n = 1 \/ n = 3 \/ n = 4) ->
+     (forall b, nostore n (bodies b) /\ jumps_in (bodies b) /\ noraise (bodies b)) /\
+     Forall (Forall (fun o => no_set n o /\ nonraising o)) opss) /\
+  (forall t, code (thr c t) = []) /\
+  In (EvCall 0 1 []) (trace c) /\
+  (total_issued_stat 1 opss = 3 /\ total_issued_stat 3 opss = 2 /\ total_issued_stat 4 opss = 12)%Z /\
+  (heap c (LStat 1) = 3 /\ heap c (LStat 3) = 2 /\ heap c (LStat 4) = 12)%Z.
+Proof.
+  cbv zeta. split; [|split; [|split; [|split; [|split]]]].
+  - split.
+    + repeat constructor; apply wf_prog_disciplined; vm_compute; reflexivity.
+    + intro b. apply body_table_prop; [exists 1%nat; reflexivity|].
+      repeat constructor; apply wf_prog_disciplined; vm_compute; reflexivity.
+  - intros n Hn. split.
+    + intro b. apply body_table_prop; [repeat split; constructor|].
+      repeat constructor; simpl; auto; discriminate.
+    + destruct Hn as [->|[->| ->]]; repeat constructor; simpl; auto; discriminate.
+  - intro t. destruct t as [|[|t]]; vm_compute; reflexivity.
+  - vm_compute. tauto.
+  - vm_compute. auto.
+  - vm_compute. auto.
+Qed.
+
+(* (2) C02_terminates - no call blocks forever.  For worlds whose thread programs contain no loop and no collector
+   call (every value / labels / remove / clear / register / unregister operation: `straight`; the bodies are then never
+   entered), with total_steps ps = twice the number of instructions of ps:
+   (a) NO execution is infinite: every schedule performs at most total_steps ps steps (a scheduled thread that is
+       finished or waits for a held lock does not step);
+   (b) an execution that cannot be continued (no thread can step) has finished every thread - no deadlock, no call
+       left blocked;
+   (c) every FAIR schedule finishes: a schedule consisting of at least total_steps ps rounds, each round naming every
+       thread at least once (round-robin is one), ends with every thread finished.
+   Not covered by (a)-(c): programs with collect() / _multi_samples loops or collector calls; the model's loop runs
+   once per entry of a table snapshot taken at run time and a collector body may call collectors again (a body
+   [Callout itself] never finishes), so there is no bound from the program text alone; for those worlds
+   C02_bounded_between_calls below is the strongest unconditional statement, together with C02_deadlock_free. *)
+Theorem C02_terminates : forall mp bodies h0 tb0 n0 ps,
+  wf_world mp bodies ps -> Forall straight ps ->
+  let c0 := init_config h0 tb0 n0 ps in
+  (forall s, (nsteps bodies s c0 <= total_steps ps)%nat) /\
+  (forall c, reach bodies h0 tb0 n0 ps c -> (forall t, step bodies t c = None) -> forall t, code (thr c t) = []) /\
+  (forall chunks, Forall (fun ch => forall t, (t < length ps)%nat -> In t ch) chunks ->
+     (total_steps ps <= length chunks)%nat -> forall t, code (thr (exec bodies (concat chunks) c0) t) = []).
+Proof.
+  intros mp bodies h0 tb0 n0 ps Hw Hst c0. split; [|split].
+  - exact (term_bound bodies h0 tb0 n0 ps Hst).
+  - exact (term_complete mp bodies h0 tb0 n0 ps Hw).
+  - exact (term_fair0 mp bodies h0 tb0 n0 ps Hw Hst).
+Qed.
+Print Assumptions C02_terminates.
+
+(* the operation lists without collect / _multi_samples / restricted-registry lookup compile to straight programs *)
+Theorem C02_straight_operations : forall mp ops, Forall callfree ops -> straight (compile_thread mp ops).
+Proof. exact (fun mp ops => from_straight mp ops 10). Qed.
+Print Assumptions C02_straight_operations.
+
+(* every world, loops and collector calls included (no discipline needed): the number of steps of ANY schedule is at
+   most total_steps ps plus (2L+1) for each loop / callout instruction executed, L bounding the length of the bodies.
+   So an execution is infinite only if it executes infinitely many loop / callout instructions: lock waiting alone
+   never prolongs an execution. *)
+Theorem C02_bounded_between_calls : forall bodies L h0 tb0 n0 ps s,
+  (forall b, (length (bodies b) <= L)%nat) ->
+  let c0 := init_config h0 tb0 n0 ps in
+  (nsteps bodies s c0 <= total_steps ps + (2 * L + 1) * ncalls bodies s c0)%nat.
+Proof. exact bounded_between_calls. Qed.
+Print Assumptions C02_bounded_between_calls.
+
+(* non-vacuity: a two-thread world in both back-ends' worst case (multiprocess: labels() nests the store lock inside the
+   parent lock), straight and disciplined; 106 steps bound; the round-robin schedule of 106 rounds finishes (46 steps, jumps skip code), and the
+   schedule 0,1,1,1,1,1,1,1,1 shows thread 1 blocked on the store lock held by thread 0 (5 steps for 9 entries) *)
+Example C02_terminates_nonvacuous :
+  let opss := [[OInc (SLoc 1) 1; OLabelsInc 2 0 2 1 5; ORegister 7]; [OLabelsInc 2 0 2 0 1; OInc (SLoc 1) 2; ORemove 2 0]] in
+  let ps := map (compile_thread true) opss in
+  let c0 := init_config (fun _ => 0%Z) (fun _ => []) 0 ps in
+  wf_world true (fun _ => []) ps /\ Forall straight ps /\ total_steps ps = 106%nat /\
+  Forall (fun ch => forall t, (t < length ps)%nat -> In t ch) (repeat [0; 1]%nat 106) /\
+  nsteps (fun _ => []) (concat (repeat [0; 1]%nat 106)) c0 = 46%nat /\
+  nsteps (fun _ => []) (0 :: repeat 1 8)%nat c0 = 5%nat.
+Proof.
+  cbv zeta. split; [|split; [|split; [|split; [|split]]]].
+  - split; [|intro b; exists 1%nat; reflexivity].
+    repeat constructor; apply wf_prog_disciplined; vm_compute; reflexivity.
+  - repeat constructor.
+  - vm_compute. reflexivity.
+  - apply Forall_forall. intros ch Hch. apply repeat_spec in Hch. subst ch. simpl.
+    intros t Ht. destruct t as [|[|t]]; [auto|auto|lia].
+  - vm_compute. reflexivity.
+  - vm_compute. reflexivity.
+Qed.
+
+(* (1) C02_final_sum, labelled children (proofs/ConcLabelProofs.v).  TB >= 2 is the child table of a labelled parent, K a
+   label-value key, J a field of the child (Counter / Gauge child: 0; Summary child: count, sum; Histogram child: sum,
+   buckets).  When every thread has finished, the cell J of THE child that the table binds to K holds its initial value
+   plus the sum of the amounts of ALL operations `labels(K).inc(a)` on field J that the operation lists issue
+   (issuedL_ops TB K J ops = sum of a over the operations OLabelsInc TB K _ J a of ops).  By C02_labels_returned_child
+   below that child is the one every labels(K) call of the execution returned.
+   Required (lab_ok, quiet): value operations of the thread programs address static cells (a child is reached through
+   labels()); labels() is used on child tables (>= 2); nothing is removed from table TB (remove()/clear() on OTHER tables
+   is allowed and may run concurrently); collector / loop bodies do not store to child cells, do not insert into child
+   tables, do not remove from TB, and their jumps stay inside them; the initial child tables have no shadowed entries,
+   ids below the fresh-id counter n0 and no id bound twice (init_ok; children created before the threads start are
+   allowed); no thread raised. *)
+Theorem C02_final_sum_labelled : forall mp bodies h0 tb0 n0 TB K J cid opss,
+  let ps := map (compile_thread mp) opss in
+  2 <= TB ->
+  (forall b, quiet TB (bodies b)) -> (forall b, jumps_in (bodies b)) ->
+  Forall (Forall (lab_ok TB)) opss ->
+  wf_world mp bodies ps -> init_ok tb0 n0 ->
+  forall c, reach bodies h0 tb0 n0 ps c -> (forall t, code (thr c t) = []) ->
+  (forall t, ~ In (EvExc t) (trace c)) ->
+  d_find N.eqb (tabs c TB) K = Some cid ->
+  heap c (LChild cid J) = (h0 (LChild cid J) + zsum (map (issuedL_ops TB K J) opss))%Z.
+Proof.
+  intros mp bodies h0 tb0 n0 TB K J cid opss ps H1 H2 H3 H4 H5 H6.
+  exact (final_sum_labelled mp bodies h0 tb0 n0 TB K J cid H1 H2 H3 opss H4 H5 H6).
+Qed.
+Print Assumptions C02_final_sum_labelled.
+
+(* the same with hypotheses on the program text only (no register()/unregister(), no Raise in the bodies) *)
+Theorem C02_final_sum_labelled_noraise : forall mp bodies h0 tb0 n0 TB K J cid opss,
+  let ps := map (compile_thread mp) opss in
+  2 <= TB ->
+  (forall b, quiet TB (bodies b) /\ jumps_in (bodies b) /\ noraise (bodies b)) ->
+  Forall (Forall (fun o => lab_ok TB o /\ nonraising o)) opss ->
+  wf_world mp bodies ps -> init_ok tb0 n0 ->
+  forall c, reach bodies h0 tb0 n0 ps c -> (forall t, code (thr c t) = []) ->
+  d_find N.eqb (tabs c TB) K = Some cid ->
+  heap c (LChild cid J) = (h0 (LChild cid J) + zsum (map (issuedL_ops TB K J) opss))%Z.
+Proof. exact final_sum_labelled_noraise. Qed.
+Print Assumptions C02_final_sum_labelled_noraise.
+
+(* every labels(K) look-up of the execution that found a child found the child of the final table: one shared child *)
+Theorem C02_labels_returned_child : forall mp bodies h0 tb0 n0 TB K opss,
+  let ps := map (compile_thread mp) opss in
+  2 <= TB -> (forall b, quiet TB (bodies b)) -> (forall b, jumps_in (bodies b)) ->
+  Forall (Forall (lab_ok TB)) opss -> wf_world mp bodies ps -> init_ok tb0 n0 ->
+  forall c, reach bodies h0 tb0 n0 ps c ->
+  forall cid, d_find N.eqb (tabs c TB) K = Some cid ->
+  forall t id, In (EvLookup t TB K (Some id)) (trace c) -> id = cid.
+Proof. exact labels_returns_final. Qed.
+Print Assumptions C02_labels_returned_child.
+
+(* non-vacuity (file-backed store: labels() nests the store lock): two threads create and increment the Summary-like
+   children (2 value objects) of keys 0 and 1 of table 2 concurrently, one removes a pre-existing child of ANOTHER table,
+   one runs collect(), whose collector 5 walks table 2 and reads every child; all hypotheses hold, every thread
+   finishes, key 0 is bound to child 1 whose field 1 holds 5 + 7 = 12 and field 0 holds 1 *)
+Example C02_final_sum_labelled_nonvacuous :
+  let opss := [[OLabelsInc 2 0 2 1 5; OInc (SLoc 1) 1; OLabelsInc 2 1 2 1 9; OCollect 100];
+               [OLabelsInc 2 0 2 1 7; ORemove 3 0; OLabelsInc 2 0 2 0 1]] in
+  let bodies := body_table [(100, compile_body true [OCallReg]); (5, compile_body true [OMulti 2 101]);
+                            (101, compile_body true [OGet (DLoc 3 1) true false])] in
+  let tb0 : tbl -> list (key * N) := fun tb => if N.eqb tb 0 then [(5, 5)] else if N.eqb tb 3 then [(0, 0)] else [] in
+  let ps := map (compile_thread true) opss in
+  let c := exec bodies (concat (repeat [1; 0; 0]%nat 80)) (init_config (fun _ => 0%Z) tb0 1 ps) in
+  (forall b, quiet 2 (bodies b) /\ jumps_in (bodies b) /\ noraise (bodies b)) /\
+  Forall (Forall (fun o => lab_ok 2 o /\ nonraising o)) opss /\
+  wf_world true bodies ps /\ init_ok tb0 1 /\
+  (forall t, code (thr c t) = []) /\
+  d_find N.eqb (tabs c 2) 0 = Some 1 /\
+  In (EvLoad 0 (LChild 1 1) 12) (trace c) /\
+  (zsum (map (issuedL_ops 2 0 1) opss) = 12%Z /\ zsum (map (issuedL_ops 2 0 0) opss) = 1%Z) /\
+  (heap c (LChild 1 1) = 12%Z /\ heap c (LChild 1 0) = 1%Z).
+Proof.
+  cbv zeta. split; [|split; [|split; [|split; [|split; [|split; [|split; [|split]]]]]]].
+  - intro b. apply body_table_prop; [repeat split; constructor|].
+    repeat constructor; simpl; auto; try discriminate; lia.
+  - repeat constructor; simpl; auto; lia.
+  - split.
+    + repeat constructor; apply wf_prog_disciplined; vm_compute; reflexivity.
+    + intro b. apply body_table_prop; [exists 1%nat; reflexivity|].
+      repeat constructor; apply wf_prog_disciplined; vm_compute; reflexivity.
+  - intros tb Htb. destruct (N.eqb tb 0) eqn:E0; [apply N.eqb_eq in E0; lia|].
+    destruct (N.eqb tb 3) eqn:E3.
+    + apply N.eqb_eq in E3. subst tb. split.
+      * intros k id [H|[]]. injection H as <- <-. split; [reflexivity|lia].
+      * intros tb' k k' id Htb' [H|[]] H'. injection H as <- <-.
+        destruct (N.eqb tb' 0) eqn:E0'; [apply N.eqb_eq in E0'; lia|].
+        destruct (N.eqb tb' 3) eqn:E3'; [|destruct H'].
+        apply N.eqb_eq in E3'. destruct H' as [H'|[]]. injection H' as <-. auto.
+    + split; [intros k id []|intros tb' k k' id _ []].
+  - intro t. destruct t as [|[|t]]; vm_compute; reflexivity.
+  - vm_compute. reflexivity.
+  - vm_compute. tauto.
+  - vm_compute. auto.
+  - vm_compute. auto.
+Qed.
+
+(* per-thread form of C02_final_sum (no hypothesis that NO thread raised): the cell is the initial value plus the sum
+   over the threads of what each thread added, and every thread that finished without raising added exactly the sum of
+   the increments its operation list issues - whatever the other threads did, raised or not.  (A thread that raised
+   added the increments of the operations it completed before the raise.) *)
+Theorem C02_final_sum_static_per_thread : forall mp bodies h0 tb0 n0 opss n,
+  let ps := map (compile_thread mp) opss in
+  wf_world mp bodies ps ->
+  (forall b, nostore n (bodies b) /\ jumps_in (bodies b)) ->
+  Forall (Forall (no_set n)) opss ->
+  forall c, reach bodies h0 tb0 n0 ps c ->
+  heap c (LStat n) = (h0 (LStat n) + zsum (map (fun t => sum_incs_t t (LStat n) (trace c)) (seq 0 (length opss))))%Z /\
+  forall t, code (thr c t) = [] -> ~ In (EvExc t) (trace c) ->
+            sum_incs_t t (LStat n) (trace c) = issued_stat_ops n (nth t opss []).
+Proof. exact final_sum_static_per_thread. Qed.
+Print Assumptions C02_final_sum_static_per_thread.
+
+Theorem C02_final_sum_labelled_per_thread : forall mp bodies h0 tb0 n0 TB K J cid opss,
+  let ps := map (compile_thread mp) opss in
+  2 <= TB -> (forall b, quiet TB (bodies b)) -> (forall b, jumps_in (bodies b)) ->
+  Forall (Forall (lab_ok TB)) opss -> wf_world mp bodies ps -> init_ok tb0 n0 ->
+  forall c, reach bodies h0 tb0 n0 ps c -> d_find N.eqb (tabs c TB) K = Some cid ->
+  heap c (LChild cid J) =
+    (h0 (LChild cid J) + zsum (map (fun t => sum_incs_t t (LChild cid J) (trace c)) (seq 0 (length opss))))%Z /\
+  forall t, code (thr c t) = [] -> ~ In (EvExc t) (trace c) ->
+            sum_incs_t t (LChild cid J) (trace c) = issuedL_ops TB K J (nth t opss []).
+Proof.
+  intros mp bodies h0 tb0 n0 TB K J cid opss ps H1 H2 H3 H4 H5 H6.
+  exact (labelled_per_thread mp bodies h0 tb0 n0 TB K J cid H1 H2 H3 opss H4 H5 H6).
+Qed.
+Print Assumptions C02_final_sum_labelled_per_thread.
+
+(* non-vacuity: collector 7 is already registered, so thread 0 raises in register(7) and never issues its inc(10);
+   thread 1 finishes normally: it added exactly 2 + 4, and the cell holds 1 + 6 *)
+Example C02_final_sum_per_thread_nonvacuous :
+  let opss := [[OInc (SLoc 1) 1; ORegister 7; OInc (SLoc 1) 10]; [OInc (SLoc 1) 2; OLabelsInc 2 0 1 0 3; OInc (SLoc 1) 4]] in
+  let tb0 : tbl -> list (key * N) := fun tb => if N.eqb tb 1 then [(7, 7)] else if N.eqb tb 0 then [(7, 7)] else [] in
+  let ps := map (compile_thread false) opss in
+  let c := exec (fun _ => []) (concat (repeat [0; 1]%nat 60)) (init_config (fun _ => 0%Z) tb0 0 ps) in
+  wf_world false (fun _ => []) ps /\ Forall (Forall (no_set 1)) opss /\
+  (forall t, code (thr c t) = []) /\ In (EvExc 0) (trace c) /\ ~ In (EvExc 1) (trace c) /\
+  sum_incs_t 1 (LStat 1) (trace c) = 6%Z /\ issued_stat_ops 1 (nth 1 opss []) = 6%Z /\
+  heap c (LStat 1) = 7%Z /\ total_issued_stat 1 opss = 17%Z.
+Proof.
+  cbv zeta. split; [|split; [|split; [|split; [|split; [|split; [|split; [|split]]]]]]].
+  - split; [|intro b; exists 1%nat; reflexivity].
+    repeat constructor; apply wf_prog_disciplined; vm_compute; reflexivity.
+  - repeat constructor.
+  - intro t. destruct t as [|[|t]]; vm_compute; reflexivity.
+  - vm_compute. tauto.
+  - vm_compute. intro H. repeat (destruct H as [H|H]; [discriminate|]). exact H.
+  - vm_compute. reflexivity.
+  - vm_compute. reflexivity.
+  - vm_compute. reflexivity.
+  - vm_compute. reflexivity.
+Qed.
+
+(* why `child tables numbered below 40` cannot become `any table number`: the bound is the LOCK NUMBERING of
+   model/Conc.v.  The parent lock of table tb is the static lock 10+tb; from tb = 40 on it has the number of a
+   user-collector mutex (50+u), from tb = 90 on the number of the value mutex of static cell tb-90 (table 91 and cell 1
+   share lock 101) and the rank of a value mutex, above the store lock: in the file-backed back-end labels() on table 90
+   then FAILS the discipline check (parent lock, then store lock, is no longer an increasing order).  So the statement
+   for arbitrary table numbers is false in this model; making it true means one lock constructor per kind of lock in
+   model/Conc.v and in the harness protocol (a model change, not a proof).  Between 40 and 89 the check still passes but
+   the parent lock aliases a user mutex, so the theorem is not stated there. *)
+Example C02_discipline_numbering_limit :
+  wf_prog (lib_disc true) (compile_thread true [OLabels 90 0 1]) = false /\
+  wf_prog (lib_disc true) (compile_thread true [OLabels 89 0 1]) = true /\
+  plock 91 = lk false (SLoc 1).
+Proof. vm_compute. auto. Qed.
+
+(* no call raises because of the interleaving: value operations, labels(), remove(), clear(), collect(), _multi_samples
+   and restricted-registry look-ups contain no raising path at all, so in a world built from them (bodies likewise) no
+   thread ever raises, under any schedule (no discipline needed).  register()/unregister() raise exactly on their
+   duplicate / unknown-collector branch (C02_final_sum_per_thread_nonvacuous shows one). *)
+Theorem C02_no_exception : forall mp bodies h0 tb0 n0 opss,
+  (forall b, noraise (bodies b)) -> Forall (Forall nonraising) opss ->
+  forall c, reach bodies h0 tb0 n0 (map (compile_thread mp) opss) c -> forall t, ~ In (EvExc t) (trace c).
+Proof. exact no_exception. Qed.
+Print Assumptions C02_no_exception.
+
+Example C02_no_exception_nonvacuous :
+  let opss := [[OLabelsInc 2 0 1 0 5; ORemove 2 0; OCollect 100]; [OLabelsInc 2 0 1 0 7; OClear 2; OLabels 2 0 1]] in
+  let bodies := body_table [(100, compile_body false [OCallReg]); (5, compile_body false [OMulti 2 101]);
+                            (101, compile_body false [OGet (DLoc 3 0) true false])] in
+  (forall b, noraise (bodies b)) /\ Forall (Forall nonraising) opss.
+Proof.
+  cbv zeta. split; [|repeat constructor].
+  intro b. apply body_table_prop; [constructor|]. repeat constructor; discriminate.
+Qed.
+
+(* C02_terminates for worlds WITH collect() / _multi_samples loops and collector calls (every disciplined world):
+   a fair schedule (rounds naming every thread) finishes every thread as soon as its number of rounds reaches
+   total_steps ps plus (2L+1) for each loop / callout instruction it executes (L bounds the length of the bodies).
+   So a fair execution in which the collectors are entered finitely often finishes; no call stays blocked on a lock.
+   (That the collectors ARE entered finitely often is not derivable from the program text in this model: the loop count
+   is the size of a run-time snapshot and a collector body may call collectors again.) *)
+Theorem C02_fair_finishes_with_calls : forall mp bodies h0 tb0 n0 ps L,
+  wf_world mp bodies ps -> (forall b, (length (bodies b) <= L)%nat) ->
+  let c0 := init_config h0 tb0 n0 ps in
+  forall chunks, Forall (fun ch => forall t, (t < length ps)%nat -> In t ch) chunks ->
+  (total_steps ps + (2 * L + 1) * ncalls bodies (concat chunks) c0 <= length chunks)%nat ->
+  forall t, code (thr (exec bodies (concat chunks) c0) t) = [].
+Proof.
+  intros mp bodies h0 tb0 n0 ps L Hw HL c0.
+  exact (term_fair_calls0 mp bodies h0 tb0 n0 ps L Hw HL).
+Qed.
+Print Assumptions C02_fair_finishes_with_calls.
+
+(* non-vacuity: the world of C02_final_sum_labelled_nonvacuous (collect() calling a collector that walks a child table):
+   bodies of length <= 4, 156 + 9 * 6 <= 300 rounds *)
+Example C02_fair_finishes_with_calls_nonvacuous :
+  let opss := [[OLabelsInc 2 0 2 1 5; OInc (SLoc 1) 1; OLabelsInc 2 1 2 1 9; OCollect 100];
+               [OLabelsInc 2 0 2 1 7; ORemove 3 0; OLabelsInc 2 0 2 0 1]] in
+  let bodies := body_table [(100, compile_body true [OCallReg]); (5, compile_body true [OMulti 2 101]);
+                            (101, compile_body true [OGet (DLoc 3 1) true false])] in
+  let tb0 : tbl -> list (key * N) := fun tb => if N.eqb tb 0 then [(5, 5)] else if N.eqb tb 3 then [(0, 0)] else [] in
+  let ps := map (compile_thread true) opss in
+  let c0 := init_config (fun _ => 0%Z) tb0 1 ps in
+  let chunks := repeat [1; 0]%nat 300 in
+  wf_world true bodies ps /\ (forall b, (length (bodies b) <= 4)%nat) /\
+  Forall (fun ch => forall t, (t < length ps)%nat -> In t ch) chunks /\
+  ncalls bodies (concat chunks) c0 = 6%nat /\
+  (total_steps ps + (2 * 4 + 1) * ncalls bodies (concat chunks) c0 <= length chunks)%nat.
+Proof.
+  cbv zeta. split; [|split; [|split; [|split]]].
+  - split.
+    + repeat constructor; apply wf_prog_disciplined; vm_compute; reflexivity.
+    + intro b. apply body_table_prop; [exists 1%nat; reflexivity|].
+      repeat constructor; apply wf_prog_disciplined; vm_compute; reflexivity.
+  - intro b. apply body_table_prop; [simpl; lia|]. repeat constructor; vm_compute; lia.
+  - apply Forall_forall. intros ch Hch. apply repeat_spec in Hch. subst ch. simpl.
+    intros t Ht. destruct t as [|[|t]]; [auto|auto|lia].
+  - vm_compute. reflexivity.
+  - apply Nat.leb_le. vm_compute. reflexivity.
 Qed.
